@@ -17,6 +17,7 @@ package vm
 //@   assumed
 //@   modifies nothing
 //@   ensures result != nil && fresh(payload(result))
+//@   ensures forall a common.Address :: sdbBal[payload(result)][a] >= 0
 //@   panics never
 
 //@ func (d CStateDB) GetTransactionLogs() []*ethtypes.Log
